@@ -140,7 +140,7 @@ def buildEntry (g pos : List (Nat × Nat)) : List Nat → List (Nat × Nat) → 
 structure Prog where
   entry : List (Nat × Nat)
   nextLarger : List (Nat × Nat)
-  deriving Repr
+  deriving Repr, DecidableEq
 
 /-- Everything after the first loop of `new`, for the kept edges `g` (later edge first) and
 the iteration order `order`: the program and the `InfiniteLoop` warnings in reporting order. -/
